@@ -8,6 +8,8 @@ from .. import paths
 from ..core import FUNC, call_attr, calls_in, dotted, norm, text, walk_local, is_const, kwarg
 
 EXPLANATION = [
+    'C04.pipe-pump-condition: FlowControlAsyncPipe.can_pump decides on the packet queue being non-empty, not on the count of queued bytes.',
+    'C04.big-table: the BIG completion handlers of the host assign self.bigs[handle] (no setdefault / update that keeps the set of an earlier failed attempt).',
     'C04.pools: every IsoLink is created with self.iso_packet_queue, and get_data_packet_queue returns the queue stored on the link itself (connection.acl_packet_queue / iso_link.packet_queue): enqueue and completion use the same pool.',
     "C04.shared-pool: Host.reset decides 'no dedicated LE buffers' on the values the controller returned (they are not rewritten before the test) and in that case makes the LE queue the very same object as the Classic queue: one pool, one counter.",
     'C04.dead-default-check: no value obtained by indexing a defaultdict attribute is afterwards tested for absence (`is None` / falsy): such a test is dead and the lookup has created the entry (drain() would wait on a fresh event nobody sets).',
@@ -643,7 +645,46 @@ def pools_rule(ctx):
     R.check(n >= 1, rule, 'bumble.host.Host | IsoLink constructions', f'{n}', 'no IsoLink construction found')
 
 
+def big_table(ctx):
+    """The set of BIS handles of a BIG is replaced by each Create BIG / BIG Sync completion: a failed attempt leaves an empty
+    set under the BIG handle, and remove_big() releases exactly the handles found there."""
+    R, p = ctx.r, ctx.p
+    rule = 'C04.big-table'
+    ci = p.cls('bumble.host.Host')
+    if ci is None:
+        R.bad(rule, 'bumble.host.Host', 'anchor missing')
+        return
+    n = 0
+    for name, fn in sorted(ci.methods.items()):
+        if not (name.startswith('on_hci_le_') and 'big' in name and 'established' in name or name == 'on_hci_le_create_big_complete_event'):
+            continue
+        n += 1
+        stores = [s_ for s_ in walk_local(fn) if isinstance(s_, ast.Assign) and isinstance(s_.targets[0], ast.Subscript) and dotted(s_.targets[0].value) == 'self.bigs']
+        soft = [c for c in calls_in(fn) if dotted(c.func.value if isinstance(c.func, ast.Attribute) else c.func) == 'self.bigs' and call_attr(c) in ('setdefault', 'update')]
+        R.check(bool(stores) and not soft, rule, f'bumble.host.Host.{name}', 'replaces the BIG\'s handle set', f'{name} keeps an existing entry (`{norm(soft[0])[:50] if soft else "no store"}`): after a failed attempt the BIG keeps its empty set, the BIS links of the successful retry are never found by remove_big(), their in-flight packets keep the controller\'s buffers for ever', p.loc(soft[0]) if soft else p.loc(fn))
+    R.check(n >= 2, rule, 'bumble.host.Host | BIG completion handlers', f'{n}', f'only {n} found')
+
+
+def pipe_pump_condition(ctx):
+    """FlowControlAsyncPipe pumps while there is a packet in the queue: the test is on the queue itself, not on the byte
+    counter (an empty packet is a packet)."""
+    R, p = ctx.r, ctx.p
+    rule = 'C04.pipe-pump-condition'
+    fn = p.find('bumble.utils.FlowControlAsyncPipe.can_pump')
+    if fn is None:
+        R.bad(rule, 'bumble.utils.FlowControlAsyncPipe.can_pump', 'anchor missing')
+        return
+    rets = [r.value for r in walk_local(fn) if isinstance(r, ast.Return) and r.value is not None]
+    atoms = []
+    for r in rets:
+        atoms += [norm(v) for v in (r.values if isinstance(r, ast.BoolOp) else [r])]
+    ok = len(rets) == 1 and any(a in ('self.queue', 'len(self.queue) > 0', 'len(self.queue) != 0', 'bool(self.queue)') for a in atoms) and not any('queued_bytes' in a for a in atoms)
+    R.check(ok, rule, 'bumble.utils.FlowControlAsyncPipe.can_pump', 'tests the packet queue', f'can_pump() decides on {atoms}: with only zero-length packets queued the byte counter is 0, the pump goes to sleep and those packets are never delivered', p.loc(fn))
+
+
 RULES = [
+    ('C04.pipe-pump-condition', pipe_pump_condition),
+    ('C04.big-table', big_table),
     ('C04.pools', pools_rule),
     ('C04.shared-pool', shared_pool),
     ('C04.dead-default-check', dead_default_check_rule),
